@@ -492,7 +492,7 @@ pub fn kinds_of_rule(rule: &str) -> &'static [&'static str] {
         "directive-unknown" => &["UnknownDirective"],
         "directive-location" => &["DirectiveLocationNotAllowed"],
         "directive-repeated" => &["RepeatedDirective"],
-        "directive-args" => &["ArgumentsNotNeeded", "RequiredArgumentNotSpecified", "UnknownArgument", "TypeMismatch", "UnknownEnumMember", "UnknownVariable"],
+        "directive-args" => &["ArgumentsNotNeeded", "RequiredArgumentNotSpecified", "UnknownArgument", "TypeMismatch", "UnknownEnumMember", "UnknownVariable", "DuplicatedName"],
         "directive-recursion" => &["RecursingDirective"],
         _ => &[],
     }
@@ -1084,6 +1084,7 @@ pub fn mutate(rng: &mut Rng, items: &mut Vec<TsItem>, rule: &str) -> Option<Stri
                 (Dir::new("ar", vec![n1(), Arg::new("l", Val::List(vec![i("1"), s("a")], p0()))]), "list-item-type"),
                 (Dir::new("ar", vec![Arg::new("n", ob(vec![Arg::new("a", i("1"))]))]), "object-for-int"),
                 (Dir::new("ar", vec![n1(), Arg::new("i", i("3"))]), "int-for-input-object"),
+                (Dir::new("ar", vec![n1(), Arg::new("n", s("second"))]), "duplicate-argument-second-ill-typed"),
             ];
             let (d, class) = faults.swap_remove(rng.below(faults.len()));
             let ss = sites(items);
